@@ -511,6 +511,18 @@ impl<T: Types> RaftLog<T> {
         self.state_machine.payload_cache.write().unwrap().drain_evictable();
     }
 
+    /// The log ids and payload sizes of the entries resident in the payload
+    /// cache, in log id order. Read-only; for the verification harness.
+    #[cfg(feature = "verif-hooks")]
+    pub fn verif_cache_resident(&self) -> Vec<(T::LogId, u64)> {
+        let cache = self.state_machine.payload_cache.read().unwrap();
+        cache
+            .cache
+            .iter()
+            .map(|(log_id, payload)| (log_id.clone(), T::payload_size(payload)))
+            .collect()
+    }
+
     fn get_log_id(&self, index: u64) -> Result<T::LogId, RaftLogStateError<T>> {
         let entry = self
             .state_machine
